@@ -137,7 +137,7 @@ def main(ctx):
     cert_rows = rows_of(res_cert)
     sig_rows = rows_of(res_sig)
     ver_rows = rows_of(res_ver)
-    ctx.require(len(cert_rows) == 41472, f'cert rows: {len(cert_rows)}')
+    ctx.require(len(cert_rows) == 82944, f'cert rows: {len(cert_rows)}')
     ctx.require(len(sig_rows) >= 5000, f'sshsig rows: {len(sig_rows)}')
     ctx.require(len(ver_rows) >= 400, f'verify rows: {len(ver_rows)}')
     for rows in (cert_rows, sig_rows, ver_rows):
@@ -150,7 +150,7 @@ def main(ctx):
         cls = (row['ctype'], row['princ'], row['crit'], row['ext'],
                row['casig'])
         classes.setdefault(cls, []).append((row, verdict, stage))
-    ctx.require(len(classes) == 1152, f'cert classes: {len(classes)}')
+    ctx.require(len(classes) == 2304, f'cert classes: {len(classes)}')
     n_acc = 0
     samp = {'acc': False, 'rej': False}
     for ci, (cls, rows) in enumerate(sorted(classes.items())):
@@ -166,10 +166,24 @@ def main(ctx):
             use = [algs[0], algs[1 + ci % (len(algs) - 1)]]
         else:
             use = algs
+        # classes with odd principal names are materialised several times
+        # (different odd names / counts / positions)
+        reps = 3 if 'odd' in cls[1] and cls[4] == 'ok' and only.rp is None \
+            else 1
+        use = [a for a in use for _ in range(reps)]
         for ai, (aname, kalg, sig_alg) in enumerate(use):
-            blob, calg, how = D.build_row_cert(cls, kalg, sig_alg, rnd)
+            blob, calg, how, put = D.build_row_cert(cls, kalg, sig_alg, rnd)
             cert, exc = D.import_cert_blob(blob, calg)
             note_exc('cert-import', exc)
+            if cert is not None:
+                # the decoded fields are the ones the CA signed
+                got = D.decoded_fields(cert)
+                diff = {k: (put[k], got[k]) for k in put
+                        if got[k] is not None and got[k] != put[k]}
+                if diff:
+                    ctx.divergence(f'certificate fields decoded differently '
+                                   f'from what was signed (put, got): {diff} '
+                                   f'ca_alg={aname}')
             frac = (ci + ai) % 2 == 1
             for row, verdict, stage in rows:
                 now = (D.NOW_FRAC if frac else D.NOW)[row['now']]
@@ -181,7 +195,7 @@ def main(ctx):
                     obs, ostage = D.validate_row(cert, row['want'],
                                                  row['wantp'], now)
                 key = ('cert', aname, cls, row['want'], row['wantp'],
-                       row['now'], frac)
+                       row['now'], frac, tuple(put['principals']))
                 ctx.count(key, nontrivial=True)
                 if obs == 'accept':
                     n_acc += 1
@@ -193,7 +207,8 @@ def main(ctx):
                         f'(stage {stage}): {row} ca_alg={aname} now={now} '
                         f'casig_how={how}',
                         replay={'kind': 'cert', 'row': row, 'alg': aname,
-                                'blob': blob.hex(), 'now': now})
+                                'blob': blob.hex(), 'now': now,
+                                'principals': put['principals']})
                 elif obs == 'reject' and verdict == 'accept':
                     ctx.divergence(
                         f'cert table: rule accepts, code rejects at {ostage} '
@@ -488,7 +503,8 @@ def second_opinions(ctx, D, scr, algs, worlds, sig_rows, rnd, quick):
     for ci, (aname, kalg, sig_alg) in enumerate(algs):
         cls = ('user', ('p', 'q'), ('force-command', 'verify-required'),
                'wrapped', 'ok')
-        blob, calg, _ = D.build_row_cert(cls, kalg, sig_alg, rnd)
+        blob, calg, _, _ = D.build_row_cert(cls, kalg, sig_alg, rnd,
+                                            key_id='verif-id', serial=7)
         d = D.keygen_list_cert(scr, D.cert_line(blob, calg))
         if d is None:
             ctx.notes.append(f'ssh-keygen -L cannot read {calg.decode()}')
